@@ -128,7 +128,7 @@ def _run(chk, tier, rng, binary, gdir):
     # ---- 2. sampled: shipped meshes with the partitioners, manual partitions of the files, random assignments ----
     maxcells = 20000 if thorough else 3000
     if thorough:
-        vfiles = [f for f in files if (f["dim"] == 2 and f["cells"] <= 400) or (f["dim"] == 3 and f["cells"] <= 130)]
+        vfiles = [f for f in files if (f["dim"] == 2 and f["cells"] <= 800) or (f["dim"] == 3 and f["cells"] <= 260)]
     else:
         qs = {"unit-square-quad.xml", "unit-square-tria.xml", "unit-cube-hexa.xml", "unit-cube-tetra.xml", "l-shape-quad.xml", "unit_circle_tria_6.xml",
               "flowbench_c2d_01_quad_32.xml", "unit_ring_quad_32.xml", "cube_cylinder_hole_hexa_8.xml", "square_circle_hole_quad_9.xml",
@@ -136,14 +136,15 @@ def _run(chk, tier, rng, binary, gdir):
         vfiles = [f for f in files if f["name"] in qs]
     for f in vfiles:
         src = {"file": f["path"]}
+        fref = 2 if (thorough and f["dim"] == 2) else 1      # joint refinements after the extraction
         for n in range(1, 17):
             if not thorough and n > 8 and n not in (12, 16):
                 continue
-            add("file:" + f["name"], f["fam"], f["dim"], src, {"kind": "2lvl", "n": n}, 1, maxcells)
+            add("file:" + f["name"], f["fam"], f["dim"], src, {"kind": "2lvl", "n": n}, fref, maxcells)
         for n in ([2, 3, 5, 7, 11, 16] if thorough else [2, 3, 7]):
             add("file:" + f["name"], f["fam"], f["dim"], src, {"kind": "iter", "n": n, "tinit_ms": 0, "tmut_ms": 2 if n % 2 else 0}, 1, maxcells)
         for n in f["partis"]:
-            add("file:" + f["name"], f["fam"], f["dim"], src, {"kind": "file", "n": n}, 1, maxcells)
+            add("file:" + f["name"], f["fam"], f["dim"], src, {"kind": "file", "n": n}, fref, maxcells)
         for k in range(4 if thorough else 2):
             nc = f["cells"]
             if nc < 2:
@@ -155,7 +156,7 @@ def _run(chk, tier, rng, binary, gdir):
             if k % 2:
                 for rk in ranks:
                     rng.shuffle(rk)          # cells of a rank in arbitrary order
-            add("file:" + f["name"], f["fam"], f["dim"], src, {"kind": "explicit", "ranks": ranks}, 1, maxcells)
+            add("file:" + f["name"], f["fam"], f["dim"], src, {"kind": "explicit", "ranks": ranks}, fref, maxcells)
     # structured meshes incl. long strips (PartiIterative explores only a neighbourhood of each centre)
     for fam, dim, nx, ny, nz in [("hypercube", 2, 16, 1, 1), ("hypercube", 2, 4, 4, 1), ("hypercube", 3, 8, 1, 1), ("hypercube", 3, 2, 2, 2), ("simplex", 2, 3, 2, 1)]:
         src = {"fac": "struct", "nx": nx, "ny": ny, "nz": nz}
